@@ -275,6 +275,9 @@ static void scalar_build_null_bitmap(const int16_t* def_levels, int64_t count,
         if (def_levels[base + 7] < max_def_level) null_bits |= 0x80;
         null_bitmap[b] = null_bits;
     }
+    if (count % 8 != 0) {
+        null_bitmap[full_bytes] = 0;  /* like the vector kernels: do not keep stale bits */
+    }
     for (int64_t j = full_bytes * 8; j < count; j++) {
         if (def_levels[j] < max_def_level) {
             null_bitmap[j / 8] |= (1 << (j % 8));
